@@ -584,7 +584,8 @@ def main_check(pid, tier, seed, budget_s=None):
         rc = 2
     if det_bad:
         rc = 2
-        print("HARNESS-ERROR property=%s nondeterministic runs (jobs %s)" % (pid, det_bad))
+        print("HARNESS-ERROR property=%s nondeterministic runs (jobs %s): re-running them in the parent process gave other digests - either the "
+              "harness draws on something outside the tape, or the code under test keeps state from one run to the next" % (pid, det_bad))
     if must_skipped:
         rc = 2
         print("HARNESS-ERROR property=%s %d must-run cases (enumerated core and guaranteed seeded jobs) not run within the hard wall cap" % (pid, must_skipped))
